@@ -101,6 +101,7 @@ def schema_xml(plan):
         out.extend(_type_xml(t, plan["slots"].get(t["name"], ())))
     for p in plan.get("schema_imports", ()):
         out.append('  <import package="%s"/>' % p)
+    out.append('  <key name="topv" datatype="integer" default="0"/>')
     for s in plan["slots"]["$top"]:
         out.append(_slot_xml(s))
     out.append("</schema>")
@@ -425,6 +426,10 @@ def generate(rng, tier, index):
     pkgs = sorted(plan["components"])
     for _ in range(rng.randint(1, 4)):
         plan["loads"].append(_gen_load(rng, plan, pkgs, all_types))
+    # one ConfigLoader object for the whole history (it keeps its extended
+    # schema between loads by design, so only "model accepts => accepted,
+    # same slots" is judged there)
+    plan["reuse_loader"] = rng.random() < 0.25
     return plan
 
 
@@ -538,7 +543,12 @@ def _gen_load(rng, plan, pkgs, all_types):
     if pkgs and rng.random() < 0.2:
         faults[rng.choice(pkgs)] = rng.choice(["pkg-import-error",
                                                "pkg-get-data-eio"])
-    return {"steps": steps, "top": rng.choice(TOPS), "pkg_faults": faults}
+    ld = {"steps": steps, "top": rng.choice(TOPS), "pkg_faults": faults}
+    if rng.random() < 0.3:
+        # an override that has nothing to do with sections or imports: which
+        # types a slot admits does not depend on it
+        ld["overrides"] = ["topv=3"]
+    return ld
 
 
 # ---------------------------------------------------------------------------
@@ -601,6 +611,11 @@ def execute(plan):
                 violation("schema-implementers", "initial",
                           "abstract type %s has implementers %r, the schema "
                           "text declares %r" % (a, sub0[a], want), 0)
+        reuse = None
+        if plan.get("reuse_loader"):
+            import ZConfig.loader as _L
+            reuse = _L.ConfigLoader(schema)
+            probe("one-loader-for-the-history")
         for li, ld in enumerate(plan["loads"]):
             store = render_all(ld["steps"], ld["top"])
             st = dict(store)
@@ -609,10 +624,17 @@ def execute(plan):
             w.pkg_faults = dict(ld.get("pkg_faults") or {})
             w.begin_op("load-%d" % li)
             w.pkg_faults = dict(ld.get("pkg_faults") or {})
-            o = ops.guarded(lambda: {
-                "ok": True,
-                "tree": observe(plan, ZConfig.loadConfig(
-                    schema, ld["top"])[0], "$top")})
+            if reuse is not None:
+                o = ops.guarded(lambda: {
+                    "ok": True,
+                    "tree": observe(plan, reuse.loadURL(ld["top"])[0],
+                                    "$top")})
+            else:
+                o = ops.guarded(lambda: {
+                    "ok": True,
+                    "tree": observe(plan, ZConfig.loadConfig(
+                        schema, ld["top"], ld.get("overrides") or ())[0],
+                        "$top")})
             fired = dict(w.fired_counts)
             n_imp = w.n_import
             w.end_op("ok" if o["ok"] else o["cls"])
@@ -627,6 +649,8 @@ def execute(plan):
                 violation("rejected-but-model-accepts", "load",
                           "load raised %s; model accepts %s" % (
                               ops.brief(o), json.dumps(store)[:400]), li)
+            elif not pred["ok"] and o["ok"] and reuse is not None:
+                probe("reused-loader-knows-more")
             elif not pred["ok"] and o["ok"]:
                 violation("accepted-but-model-rejects", "load",
                           "load accepted; model rejects because %s; %s" % (
